@@ -180,6 +180,15 @@ def check(repo: Repo, rep: Report) -> None:
     first = [x for x in sites(wt_) if isinstance(x.node, ast.Call) and isinstance(x.node.func, ast.Name) and ct_ is not None and x.node.func.id == ct_.name and not x.ctx.branch]
     rep.ob("T2-generation", wt_, "subscribe arms the timer of the first window", bool(first),
            "window_with_time_or_count never arms a timer for its first window: that window is closed by the count only, however long it lives")
+    # a window's closing / timer subscription held in a SerialDisposable is stored through a placeholder: the closing sequence may
+    # fire inside its own subscribe, and its handler installs the NEXT window's closing subscription in the same serial
+    from . import sync_common as SY
+    rep.rule("W5-closing-survives", "window_when / timed windows: a closing subscription installed from a callback is not overwritten by the outer store", floor=1)
+    n_sw = 0
+    for rel_, q_ in (("reactivex/operators/_window.py", "window_when_"), ("reactivex/operators/_windowwithtime.py", "window_with_time_"),
+                     ("reactivex/operators/_windowwithtimeorcount.py", "window_with_time_or_count_")):
+        n_sw += SY.rule_no_serial_clobber(rep, "W5-closing-survives", repo.fn(rel_, q_))
+    rep.ob("W5-closing-survives", repo.fn("reactivex/operators/_window.py", "window_when_"), f"{n_sw} store(s) of a subscription / scheduled step into a serial disposable examined", True)
     # window_toggle: a source element lives for a zero-length duration
     rep.rule("Z1-zero-length-element", "window_toggle gives each source element a duration that ends inside its own subscribe (empty() on the immediate scheduler)", floor=2)
     wt = repo.fn("reactivex/operators/_window.py", "window_toggle_")
